@@ -69,6 +69,7 @@ type poolCfg struct {
 	emitFirst int
 	extra     []string
 	trace     bool // runOnce only: let the worker name every damaged input on stderr
+	perProc   uint64 // runs per worker process (0: no limit): 1 makes every run start in a fresh, cold process
 }
 
 type poolOut struct {
@@ -154,7 +155,11 @@ func runWorker(ctx context.Context, cfg *poolCfg, out *poolOut, wid int, start, 
 	tEnd := time.Now().Add(cfg.deadline)
 	for next < end && time.Now().Before(tEnd) && ctx.Err() == nil {
 		left := time.Until(tEnd)
-		last, exitErr, crash := spawn(ctx, cfg, out, wid, next, end-next, left, nil)
+		n := end - next
+		if cfg.perProc > 0 && n > cfg.perProc {
+			n = cfg.perProc
+		}
+		last, exitErr, crash := spawn(ctx, cfg, out, wid, next, n, left, nil)
 		out.mu.Lock()
 		if crash != nil {
 			out.found = append(out.found, *crash)
@@ -169,6 +174,9 @@ func runWorker(ctx context.Context, cfg *poolCfg, out *poolOut, wid int, start, 
 			next++ // skip the run that killed the worker
 		}
 		if exitErr == nil {
+			if cfg.perProc > 0 && next < end {
+				continue // next process
+			}
 			break
 		}
 		out.mu.Lock()
